@@ -278,6 +278,29 @@ theorem div_chain_inner_nullif_missing_counterexample :
     evalC .duckdb (fun i => .int ([8, 0, 2].getD i 0)) (genT false false ⟨true, true⟩ (fun _ => .none) (chainT 2))
       = .inf false := by decide
 
+-- ------------------------------------------------------------------------------------------ set-operation chains
+/-- **`Generator.set_operations` prints a chain exactly in order**: for every tree of UNION / EXCEPT / INTERSECT
+    [ALL] nodes (any shape, any length) the explicit-stack flattening loop emits operand, operator-of-THAT-node,
+    operand, … — the in-order operator sequence of the tree -/
+theorem set_operations_print_inorder (t : SetTree) : printSetOps t = t.inorder := by
+  unfold printSetOps
+  rw [setOpsLoop_spec t.weight [.tree t] [] (by simp [SetItem.weight])]
+  simp [SetItem.flat]
+
+example : printSetOps (.op .union false (.op .union true (.leaf 0) (.leaf 1)) (.leaf 2))
+    = [.branch 0, .kw .union true, .branch 1, .kw .union false, .branch 2] := by decide
+
+/-- the seeded regression C02-6 as an UNREPAIRED VARIANT: with the keyword cached per operation class,
+    `a UNION b UNION ALL c` (the root — UNION ALL — is popped first) is printed `a UNION ALL b UNION ALL c` -/
+theorem set_operations_keyword_cache_counterexample :
+    setOpsLoopCached 10 [] [.tree (.op .union false (.op .union true (.leaf 0) (.leaf 1)) (.leaf 2))] []
+      = [.branch 0, .kw .union false, .branch 1, .kw .union false, .branch 2] ∧
+    (SetTree.op .union false (.op .union true (.leaf 0) (.leaf 1)) (.leaf 2)).inorder
+      = [.branch 0, .kw .union true, .branch 1, .kw .union false, .branch 2] := by decide
+
+/-- TABLE FACT (ast of Generator.set_operations, re-read every run): the keyword is computed per popped node -/
+theorem set_operation_keyword_per_node : setOpKeywordPerNode = true := by decide
+
 -- ------------------------------------------------------------------------------------------ alias generation
 /-- **`eliminate_qualify` hoists every window under its OWN alias**: whatever names the SELECT already uses and however
     many windows the QUALIFY condition contains, the aliases produced by repeated `find_new_name(named_selects, "_w")`
